@@ -6,7 +6,8 @@ ap = argparse.ArgumentParser()
 ap.add_argument("prop")
 ap.add_argument("--tier", default="quick")
 ap.add_argument("--seed", type=int, default=0)
-ap.add_argument("--jobs", type=int, default=None)
+import os
+ap.add_argument("--jobs", type=int, default=int(os.environ.get("VERIF_JOBS", "0")) or None)
 ap.add_argument("--update-baseline", action="store_true")
 a = ap.parse_args()
 sys.exit(runner.main(a.prop, a.tier, a.seed, a.jobs, a.update_baseline))
